@@ -339,6 +339,51 @@ def mutate(rng, g, pkgs):
     return k, g2, p2
 
 
+LIST_FIELDS = {"VARS", "BUILD_TAGS", "CCFLAGS", "CFLAGS", "LDFLAGS", "EXTRA_FILES", "go_files", "alt_go_files", "other_files", "rewrite_vars", "deps"}
+
+
+def parse_canon(c):
+    """'env[K=V;K=V]+common[...]+...' -> {section: {K: V}}"""
+    out = {}
+    for sec in c.split("+"):
+        m = re.match(r"^([a-z]+)\[(.*)\]$", sec)
+        if not m:
+            out[sec] = {}
+            continue
+        d = {}
+        if m.group(1) == "deps":
+            d["deps"] = m.group(2)
+        else:
+            for kv in m.group(2).split(";"):
+                k, _, v = kv.partition("=")
+                d[k] = v
+        out[m.group(1)] = d
+    return out
+
+
+def canon_covered(model_c, real_c):
+    """does the real manifest contain everything the model's manifest contains?  Scalars must be equal; for lists every
+    item of the model must occur in the real list.  (The real manifest may hold MORE - a finer key is not a defect.)
+    -> list of differences"""
+    if model_c == real_c:
+        return []
+    pm, pr = parse_canon(model_c), parse_canon(real_c)
+    diffs = []
+    for sec, fields in pm.items():
+        for k, v in fields.items():
+            rv = pr.get(sec, {}).get(k)
+            if rv is None:
+                diffs.append("%s.%s missing in the real manifest" % (sec, k))
+            elif k in LIST_FIELDS:
+                want = set() if v == "." else set(v.split(","))
+                have = set() if rv == "." else set(rv.split(","))
+                if not want <= have:
+                    diffs.append("%s.%s: model items %s not in real %s" % (sec, k, sorted(want - have)[:3], sorted(have)[:6]))
+            elif v != rv:
+                diffs.append("%s.%s: model %s real %s" % (sec, k, v, rv))
+    return diffs
+
+
 def parse_key_answer(line):
     """'ok id!fp!ok!canon ...' (real) or 'ok id!canon!hash ...' (model) -> list of field lists"""
     if not line.startswith("ok"):
@@ -377,8 +422,13 @@ def correspondence(ctx, harness, modeld, hello, n_bases, n_mut):
         nontrivial.add(model_lines[i])
         for r, m in zip(ra, ma):
             # r = [id, fp, fpok, canon]   m = [id, canon, hash]
-            if r[0] != m[0] or r[3] != m[1] or r[2] != "1":
-                field_mm.append((i, kind, bytes.fromhex(r[0]).decode(), r[3], m[1]))
+            d = canon_covered(m[1], r[3]) if r[0] == m[0] else ["package ids differ"]
+            if r[2] != "1":
+                d.append("Fingerprint() is not sha256 of the manifest text")
+            if d:
+                field_mm.append((i, kind, bytes.fromhex(r[0]).decode(), d, r[3], m[1]))
+            elif r[3] != m[1]:
+                stats["real_manifest_has_more"] = stats.get("real_manifest_has_more", 0) + 1
         if kind == "base":
             base_of[b] = i
             continue
